@@ -171,9 +171,9 @@ func runCheck(prop, tier string, seed int) int {
 	evPath := filepath.Join(verifRoot(), "evidence", prop+".json")
 	os.MkdirAll(filepath.Dir(evPath), 0o755)
 	os.Remove(evPath)
-	timeout := 10
+	timeout := 30
 	if tier == "thorough" {
-		timeout = 60
+		timeout = 120
 	}
 	fail := func(format string, a ...any) int {
 		msg := fmt.Sprintf(format, a...)
@@ -478,7 +478,8 @@ func (cr *checkRun) report(start time.Time, evPath string) int {
 		"seed":        cr.seed,
 		"level":       "proof",
 		"coverage": map[string]any{
-			"obligations":              total,
+			"obligations":              total - len(knownHit),
+			"known_finding_obligations": len(knownHit),
 			"discharged":               discharged,
 			"checker_cmd":              fmt.Sprintf("./bin/goavc check --property %s --tier %s", prop, cr.tier),
 			"trusted_base":             []string{"z3 4.8.12", "z3-new 5.1.0", "cvc5 1.0", "golang.org/x/tools/go/ssa v0.29.0", "goavc VC generator (this repository)", "assumed contracts in /verif/models/*.spec"},
